@@ -167,8 +167,9 @@ def line_of(cs, op, withha):
 
 def make_sc(SC, cs, frac=True):
     conv = (lambda x: x) if frac else float
-    st = NS(month=cs['month'], day=cs['day'], secDay=cs['secDay'],
-            inobis=list(cs['inobis'] if cs['inobis'] is not None else INOBIS))
+    import w3_util as W3
+    st = W3.real_clock(SC, cs['month'], cs['day'], cs['secDay'],
+                       list(cs['inobis'] if cs['inobis'] is not None else INOBIS))
     return SC(NS(canAspect=conv(cs['canAspect'])), None, st,
               NS(lon=conv(cs['lon']), lat=conv(cs['lat']), gmt=conv(cs['gmt'])), None, None, None)
 
@@ -343,7 +344,8 @@ class FloatCode(object):
     def __init__(self):
         core.repo_python_path()
         from uwg.solarcalcs import SolarCalcs
-        self.st = NS(month=1, day=1, secDay=0, inobis=list(INOBIS))
+        import w3_util as W3
+        self.st = W3.real_clock(SolarCalcs, 1, 1, 0, list(INOBIS))
         self.rsm = NS(lat=0.0, lon=0.0, gmt=0.0)
         self.sc = SolarCalcs(NS(canAspect=1.0), None, self.st, self.rsm, None, None, None)
         self.errors = 0
@@ -523,8 +525,8 @@ def header_handover(chk):
         got = (m.lat, m.lon, m.gmt, m.RSM.lat, m.RSM.lon, m.RSM.gmt)
         want = (float(la), float(lo), float(tz)) * 2
         # and what the real routine computes from them at 09:00 on 21 March, against the as-coded formula
-        sol = uwg.SolarCalcs(m.UCM, m.BEM, types.SimpleNamespace(month=3, day=21, secDay=32400,
-                                                                 inobis=m.simTime.inobis),
+        import w3_util as W3
+        sol = uwg.SolarCalcs(m.UCM, m.BEM, W3.real_clock(uwg.SolarCalcs, 3, 21, 32400, m.simTime.inobis),
                              m.RSM, m.forc, m.geoParam, m.rural)
         sol.solarangles()
         ref = ascoded_cosz(3, 21, 32400, float(la), float(lo), float(tz))
@@ -595,6 +597,14 @@ def live_sun(chk, fc):
     plan.append(('boston', rng.choice(S.GROUPS['weekday']) + '+leapflag-Yes+holidays-listed',
                  rng.choice([(3, 1), (9, 22)]), 300))
     plan.append(('boston', 'base', (1, 15) if not thorough else (6, 15), 300))
+    # year cells of the data rows (legal, never varied: every shipped run starts on a row stamped with a non-leap year)
+    import w3_util as W3
+    stamps = sorted(W3.YEAR_STAMPS)
+    late = [(3, 1), (3, 2), (6, 21), (8, 1), (9, 22), (12, 31)]
+    for k, name in enumerate(stamps if thorough else rng.sample(stamps, 4)):
+        plan.append((('singapore', 'boston')[k % 2], 'base+' + name, rng.choice(late) if k % 4 != 3 else
+                     rng.choice([(1, 10), (2, 28)]), 300))
+    plan.append(('singapore', 'base+years-all-2024(leap)', rng.choice(late), 300))
     if thorough:
         for name in S.GROUPS['dst'] + S.GROUPS['ground'] + S.GROUPS['text'] + ['leap8784']:
             plan.append((rng.choice(['boston', 'singapore']), name,
@@ -604,12 +614,17 @@ def live_sun(chk, fc):
     try:
         UU.SolarCalcs = Rec
         for k, (site, name, (mo, dy), dt) in enumerate(plan):
-            rows = S.apply_variant(srcs[site], name)
+            rows = S.apply_variant(srcs[site], name.split('+years-')[0])
+            if '+years-' in name:
+                rows = W3.stamp_years(rows, 'years-' + name.split('+years-')[1])
             path = S.save_epw(rows, os.path.join(work, 'sun%d.epw' % k))
             hdr = (float(rows[0][6]), float(rows[0][7]), float(rows[0][8]))
             del log[:]
             case = {'site': site, 'epw_variant': name, 'HOLIDAYS/DAYLIGHT SAVINGS': rows[4], 'DATA PERIODS': rows[7],
                     'month': mo, 'day': dy, 'nday': 1, 'dtsim': dt}
+            if '+years-' in name:
+                case['year_cell_of_the_first_simulated_row'] = rows[8 + 24 * S.doy0(mo, dy)][0]
+                case['data_rows'] = len(rows) - 8
             try:
                 with contextlib.redirect_stdout(io.StringIO()):
                     m = simdriver.build_model(mo, dy, 1, dt, epw=path)
@@ -620,7 +635,8 @@ def live_sun(chk, fc):
                     branches['skipped(model raised)'] = branches.get('skipped(model raised)', 0) + 1
                     continue
             nruns += 1
-            branches[name.split('-')[0]] = branches.get(name.split('-')[0], 0) + 1
+            bk = 'year-cells' if '+years-' in name else name.split('-')[0]
+            branches[bk] = branches.get(bk, 0) + 1
             t0 = S.doy0(mo, dy) * 86400
             seen_t = {}
             for (lmo, ldy, lsec, zen, la, lo, tz) in log:
@@ -657,7 +673,8 @@ def live_sun(chk, fc):
                'real generate()+simulate() (1 day, dtsim 300/150/100/90) on Boston and Singapore files whose header '
                'declares a daylight-saving period (m/d, m/d with blanks, wrapping the year end, day-of-year, textual) with '
                'the simulated day INSIDE the period, an actual-year header, leap flag, holidays, other start week-day, '
-               'an 8784-row file: at every solarangles call of the run the site data in force are the LOCATION '
+               'an 8784-row file, 8760-row files whose data rows are stamped with other YEARS (all rows a leap year / 2000 / '
+               '1900 / a common year; a typical-year mix of leap and common years per month; dates before and after 1 March): at every solarangles call of the run the site data in force are the LOCATION '
                'values, the zenith is bit-identical to the stand-alone routine for (header lat, lon, zone; clock '
                'month, day, second) and agrees with the %s to %s' % (refname, tol),
                mismatches=bad, branches=branches)
@@ -906,6 +923,27 @@ def routes_and_histories(chk):
         mon.register(m, fb)
         return m
     judge('start date assigned after generate(), no second generate()', lib_run('stale', route_stale), None)
+    # ---- rural-file variant: the YEAR cells of the data rows of file B re-stamped (8760 rows, 365-day clock): not an input
+    import w3_util as W3
+    stamp = rng.choice(['years-all-2024(leap)', 'years-typical-mixed(leap and not, per month)'] if quick
+                       else sorted(W3.YEAR_STAMPS))
+    for k, stamp_name in enumerate([stamp] if quick else sorted(W3.YEAR_STAMPS)):
+        rows_b = W3.stamp_years(U3.load_rows(fb), stamp_name)
+        fby = os.path.join(work, 'siteB_years%d.epw' % k)
+        with open(fby, 'w', newline='') as f:
+            csv.writer(f, lineterminator='\n').writerows(rows_b)
+        first = rows_b[8 + 24 * (INOBIS[month - 1] + day - 1)][0]
+        r = U3.run_scenario(json.loads(json.dumps(d0)), fby, work, 'years%d.epw' % k, monitors=('sun',))
+        lab = 'from_dict(fresh dictionary) on file B with the data rows stamped %s' % stamp_name
+        judge('year cells of the data rows', r, None, {'year_cells': stamp_name, 'year_cell_of_the_first_simulated_row': first})
+        if not r.get('error') and r.get('records') != ref.get('records'):
+            fd = G.first_diff(r.get('records') or [], ref['records'])
+            bad('the year printed in the data rows of the rural file changes the result (%s)' % lab,
+                {'scenario': lab, 'year_cells': stamp_name, 'year_cell_of_the_first_simulated_row': first,
+                 'data_rows': len(rows_b) - 8},
+                'first differing hourly record %s: %r' % (fd[0], fd[1]),
+                'the records of the run on file B as shipped (same LOCATION line, same date, same clock time => same '
+                'sun): %r' % (fd[2],))
     # ---- the command line: the same dictionaries, the shipped parameter file, and everything else it offers
     jp = os.path.join(work, 'fresh.json')
     with open(jp, 'w') as f:
@@ -981,7 +1019,8 @@ def routes_and_histories(chk):
                'stages); a dictionary with extra keys named like every derived scalar attribute of a generated model '
                '(lat, lon, gmt, nSoil, site, epw_path ...); from_param_args; an object generated [and simulated] for A, '
                'then epw_path = B and generate(); start date assigned after generate() with and without a second '
-               'generate(); from_param_file; `uwg simulate model` / `uwg simulate param` executed inside a monitored child '
+               'generate(); file B with the YEAR cells of its 8760 data rows re-stamped (all rows a leap year / a typical-year '
+               'mix of leap and common years; thorough: 6 stampings) - same hourly records as on file B; from_param_file; `uwg simulate model` / `uwg simulate param` executed inside a monitored child '
                'and as a real subprocess; every option the command line declares beyond those of the unchanged tree, '
                'with members drawn from its declared click type. All routes with equal parameters give the file of '
                'the model set up directly for B',
